@@ -95,12 +95,18 @@ func VerifH_C10_scan() {
 	// up to two spends of distinct outputs of the funding tx
 	nspend := vpRange("spends", 0, vpParam("maxspends", 1))
 	var spendIdx [2]int
+	var firstSpend *wire.MsgTx
 	for k := 0; k < nspend; k++ {
 		i := vpRange("spendOutput", 0, 1)
 		if k == 1 && i == spendIdx[0] {
 			return // one outpoint is spent at most once on a chain
 		}
 		spendIdx[k] = i
+		if k == 1 && vpRange("sameSpendingTx", 0, 1) == 1 {
+			// one transaction spends both outputs
+			firstSpend.TxIn = append(firstSpend.TxIn, &wire.TxIn{PreviousOutPoint: wire.OutPoint{Hash: fhash, Index: uint32(i)}})
+			continue
+		}
 		lo := 1
 		if fHeight > 0 {
 			lo = fHeight
@@ -118,6 +124,9 @@ func VerifH_C10_scan() {
 		sp.TxIn = append(sp.TxIn, &wire.TxIn{PreviousOutPoint: wire.OutPoint{Hash: fhash, Index: uint32(i)}})
 		sp.TxOut = []*wire.TxOut{{Value: 5, PkScript: vpScriptX}}
 		chain.blocks[sh].Transactions = append(chain.blocks[sh].Transactions, sp)
+		if k == 0 {
+			firstSpend = sp
+		}
 	}
 	for h := 0; h <= finalTip; h++ {
 		chain.hashes = append(chain.hashes, chain.blocks[h].BlockHash())
